@@ -53,6 +53,7 @@ type sdCase struct {
 	SameEnv bool
 	GapMs   int // one transport: pause between closing one connection and dialling the next
 	EchoN   int
+	LateMs  int // > 0: keep the connection, wait that long after the echo, echo once more
 }
 
 var sdSrvNames = []string{"default", "small-windows", "retry", "long-chain", "pkt1350", "idle-short", "v2-only"}
@@ -67,7 +68,11 @@ func (c sdCase) String() string {
 	if c.SameEnv {
 		env = fmt.Sprintf("one-transport(gap %dms)", c.GapMs)
 	}
-	return fmt.Sprintf("%s server=%s client=%s faults=[%s] dials=%d %s echo=%d", c.Name, sdSrvNames[c.Srv], sdCliNames[c.Cli], strings.Join(fs, " "), c.Dials, env, c.EchoN)
+	late := ""
+	if c.LateMs > 0 {
+		late = fmt.Sprintf(" second-echo-after=%dms", c.LateMs)
+	}
+	return fmt.Sprintf("%s server=%s client=%s faults=[%s] dials=%d %s echo=%d%s", c.Name, sdSrvNames[c.Srv], sdCliNames[c.Cli], strings.Join(fs, " "), c.Dials, env, c.EchoN, late)
 }
 
 func sdOpts(c sdCase) simOpts {
@@ -143,7 +148,7 @@ func sdServe(ctx context.Context, e *simEnv) {
 }
 
 // sdDialEcho: one dial through the env plus the echo.
-func sdDialEcho(e *simEnv, echoN int, seed int) sdResult {
+func sdDialEcho(e *simEnv, echoN int, seed int, lateMs int) sdResult {
 	ctx, cancel := context.WithTimeout(context.Background(), 60*time.Second)
 	defer cancel()
 	conn, err := e.Dial(ctx)
@@ -158,24 +163,42 @@ func sdDialEcho(e *simEnv, echoN int, seed int) sdResult {
 		}
 		return sdResult{Phase: "echo", Err: msg}
 	}
-	s, err := conn.OpenStreamSync(ctx)
-	if err != nil {
-		return fail("OpenStreamSync", err)
+	echo := func(n, id int) *sdResult {
+		s, err := conn.OpenStreamSync(ctx)
+		if err != nil {
+			r := fail("OpenStreamSync", err)
+			return &r
+		}
+		data := streamBytes(id, n)
+		_ = s.SetDeadline(time.Now().Add(60 * time.Second))
+		if _, err := s.Write(data); err != nil {
+			r := fail("Write", err)
+			return &r
+		}
+		if err := s.Close(); err != nil {
+			r := fail("Close", err)
+			return &r
+		}
+		got, err := io.ReadAll(s)
+		if err != nil {
+			r := fail(fmt.Sprintf("Read after %d of %d bytes", len(got), len(data)), err)
+			return &r
+		}
+		if !bytes.Equal(got, data) {
+			return &sdResult{Phase: "echo", Err: fmt.Sprintf("echo returned %d bytes that differ from the %d written", len(got), len(data))}
+		}
+		return nil
 	}
-	data := streamBytes(seed, echoN)
-	_ = s.SetDeadline(time.Now().Add(60 * time.Second))
-	if _, err := s.Write(data); err != nil {
-		return fail("Write", err)
+	if r := echo(echoN, seed); r != nil {
+		return *r
 	}
-	if err := s.Close(); err != nil {
-		return fail("Close", err)
-	}
-	got, err := io.ReadAll(s)
-	if err != nil {
-		return fail(fmt.Sprintf("Read after %d of %d bytes", len(got), len(data)), err)
-	}
-	if !bytes.Equal(got, data) {
-		return sdResult{Phase: "echo", Err: fmt.Sprintf("echo returned %d bytes that differ from the %d written", len(got), len(data))}
+	if lateMs > 0 {
+		// the connection has to survive whatever still arrives from the first flights
+		time.Sleep(time.Duration(lateMs) * time.Millisecond)
+		if r := echo(2000, seed+100); r != nil {
+			r.Err = fmt.Sprintf("second echo, %d ms after the first: %s", lateMs, r.Err)
+			return *r
+		}
 	}
 	return sdResult{}
 }
@@ -237,7 +260,7 @@ func runOneSimDial(c sdCase) (res []sdResult, leak string) {
 				e.Router.mu.Lock()
 				from := len(e.Router.log)
 				e.Router.mu.Unlock()
-				res[k] = sdDialEcho(e, c.EchoN, k+1)
+				res[k] = sdDialEcho(e, c.EchoN, k+1, c.LateMs)
 				if c.Spec != nil {
 					res[k].Stale = sdStale(e, from)
 				}
@@ -428,7 +451,7 @@ func runSimDial(w *bufio.Writer, seed uint64, n int, args []string) {
 	nCases := 0
 	emit := func(c sdCase) {
 		if os.Getenv("VERIF_SD_TRACE") != "" {
-			fmt.Fprintf(w, "START\t%s\n", c.String())
+			fmt.Fprintf(w, "START\t%s\t%s\n", c.Q, c.String())
 			w.Flush()
 		}
 		res, leak := runOneSimDial(c)
@@ -449,7 +472,7 @@ func runSimDial(w *bufio.Writer, seed uint64, n int, args []string) {
 		rep.dist[fmt.Sprintf("faults=%d", len(c.Faults))]++
 	}
 	if family != "" {
-		sdFamily(r, family, n, emit)
+		sdFamily(r, family, only, n, emit)
 		for k, v := range rep.dist {
 			fmt.Fprintf(w, "DIST\t%s\t%d\n", k, v)
 		}
@@ -506,6 +529,12 @@ func runSimDial(w *bufio.Writer, seed uint64, n int, args []string) {
 		sdChild(w, rep, seed, "retx", 8+n/5)
 		// a fixed QUICFrames layout that cuts its slice at an offset
 		sdChild(w, rep, seed, "fixed-split", 6+n/10)
+		// a datagram of the server's first flights delivered a second time one to several round
+		// trips later (behind HANDSHAKE_DONE): one child per client kind, so that a crash of one
+		// does not hide the others
+		for _, q := range append(append([]string{}, parrotNames...), "nil-spec", "plain") {
+			sdChildOnly(w, rep, seed, "late-dup", q, 0)
+		}
 	}
 	// --- C: nil spec == plain Transport ---------------------------------------------------
 	nNil := 6 + n/10
@@ -545,7 +574,11 @@ func runSimDial(w *bufio.Writer, seed uint64, n int, args []string) {
 }
 
 // sdFamily: directed case families (also the entry point of the child process).
-func sdFamily(r *u.Rng, family string, n int, emit func(sdCase)) {
+func sdFamily(r *u.Rng, family, only string, n int, emit func(sdCase)) {
+	if family == "late-dup" {
+		sdLateDup(r, only, emit)
+		return
+	}
 	for i := 0; i < n; i++ {
 		rr := r.Fork()
 		base := parrotNames[rr.Intn(len(parrotNames))]
@@ -605,16 +638,22 @@ func sdFamily(r *u.Rng, family string, n int, emit func(sdCase)) {
 // panic in one of the connection's own goroutines cannot be recovered from outside) becomes a
 // monitor failure carrying the last case that was started.
 func sdChild(w *bufio.Writer, rep *sdReporter, seed uint64, family string, n int) {
-	cmd := exec.Command(os.Args[0], "simdial", fmt.Sprint(seed), fmt.Sprint(n), "family="+family)
+	sdChildOnly(w, rep, seed, family, "", n)
+}
+
+func sdChildOnly(w *bufio.Writer, rep *sdReporter, seed uint64, family, only string, n int) {
+	cmd := exec.Command(os.Args[0], "simdial", fmt.Sprint(seed), fmt.Sprint(n), "family="+family, "only="+only)
 	cmd.Env = append(os.Environ(), "VERIF_SD_TRACE=1")
 	var out, errb bytes.Buffer
 	cmd.Stdout, cmd.Stderr = &out, &errb
 	err := cmd.Run()
-	last := ""
+	last, lastQ := "", ""
 	for _, ln := range strings.Split(out.String(), "\n") {
 		switch {
 		case strings.HasPrefix(ln, "START\t"):
-			last = strings.TrimPrefix(ln, "START\t")
+			if f := strings.SplitN(ln, "\t", 3); len(f) == 3 {
+				lastQ, last = f[1], f[2]
+			}
 		case strings.HasPrefix(ln, "CASE ") || strings.HasPrefix(ln, "MONFAIL\t") || strings.HasPrefix(ln, "DIST\t"):
 			fmt.Fprintln(w, ln)
 		}
@@ -631,9 +670,56 @@ func sdChild(w *bufio.Writer, rep *sdReporter, seed uint64, family string, n int
 		var where []string
 		for _, ln := range strings.Split(errb.String(), "\n") {
 			if strings.Contains(ln, "uquic.") && !strings.Contains(ln, "verifdrv") && len(where) < 4 {
-				where = append(where, strings.TrimSpace(strings.SplitN(ln, "(", 2)[0]))
+				fn := strings.TrimSpace(ln)
+				if i := strings.LastIndex(fn, "("); i > 0 {
+					fn = fn[:i]
+				}
+				where = append(where, strings.TrimPrefix(fn, "github.com/refraction-networking/uquic."))
 			}
 		}
-		rep.fail("simdial/derived/"+family+"-panic", fmt.Sprintf("the client process dies while dialling (%v): %s in %s", err, first, strings.Join(where, " <- ")), last)
+		key := "simdial/derived/" + family + "-panic"
+		if family == "late-dup" {
+			key = "simdial/" + lastQ + "/late-handshake-duplicate"
+		}
+		rep.fail(key, fmt.Sprintf("the client process dies while dialling (%v): %s in %s", err, first, strings.Join(where, " <- ")), last)
+	}
+}
+
+// sdLateDup: late duplicates of the server's first-flight datagrams (RTT 10 ms: the copy arrives
+// 1 to 8 round trips after the original), each server->client datagram 0..3 alone and all of
+// them together; the connection must complete the handshake, echo, and still echo afterwards.
+func sdLateDup(r *u.Rng, only string, emit func(sdCase)) {
+	qs := append(append([]string{}, parrotNames...), "nil-spec", "plain")
+	for _, q := range qs {
+		if only != "" && only != q {
+			continue
+		}
+		var scheds [][]fault
+		for idx := 0; idx < 4; idx++ {
+			for _, arg := range []int{[]int{10, 15, 25}[r.Intn(3)], []int{40, 60, 80}[r.Intn(3)]} {
+				scheds = append(scheds, []fault{{Dir: 1, Idx: idx, Kind: fDupLate, Arg: arg}})
+			}
+		}
+		all := []fault{}
+		for idx := 0; idx < 4; idx++ {
+			all = append(all, fault{Dir: 1, Idx: idx, Kind: fDupLate, Arg: 50})
+		}
+		scheds = append(scheds, all)
+		for _, fs := range scheds {
+			c := sdCase{Name: q, Q: q, Kind: "", Dials: 1, EchoN: 20000, Faults: fs, LateMs: 300}
+			switch q {
+			case "nil-spec":
+				c.Name = "UTransport{QUICSpec:nil}"
+			case "plain":
+				c.Name, c.Plain = "Transport", true
+			default:
+				sp, err := specFor(q)
+				if err != nil {
+					continue
+				}
+				c.Spec = sp
+			}
+			emit(c)
+		}
 	}
 }
